@@ -318,6 +318,7 @@ func corpusDart() []*modSpec {
 		mk("dart-shared-anonymous-type", "dart-anonymous-helper-in-two-files", "package models\n\nimport \"example.com/org/models/sub\"\n\ntype S struct {\n\tL []int\n\tT sub.T\n}\n", modFile{"sub/sub.go", "package sub\n\ntype T struct{ X []int }\n"}),
 		mk("dart-hidden-fields", "", "package models\n\ntype Account struct {\n\tID int\n\tLogin string `json:\"login\"`\n\tPassword string `json:\"-\"`\n\tAge int `json:\"age,omitempty\"`\n\tCache []int `gomacro:\"ignore\"`\n\tNotes map[string]string `json:\"notes\" gomacro:\"ignore\"`\n\tinternal int\n}\n\ntype Holder struct {\n\tA Account\n\tL []Account `json:\"-\"`\n}\n"),
 		mk("dart-key-not-an-identifier", "dart-json-key-not-a-dart-identifier", "package models\n\ntype Item struct {\n\tFullName string `json:\"full-name\"`\n\tDash string `json:\"-,\"`\n\tOk int `json:\"ok\"`\n}\n"),
+		mk("dart-type-used-from-two-other-files", "", "package models\n\nimport (\n\t\"example.com/org/models/a\"\n\t\"example.com/org/models/b\"\n)\n\ntype Order struct {\n\tTotal a.Money\n\tInv b.Invoice\n\tCur a.Currency\n}\n", modFile{"a/a.go", "package a\n\ntype Currency int\n\nconst (\n\tEUR Currency = iota\n\tUSD\n)\n\ntype Money struct {\n\tCents int\n\tCur Currency\n}\n"}, modFile{"b/b.go", "package b\n\nimport \"example.com/org/models/a\"\n\ntype Invoice struct {\n\tAmount a.Money\n\tLines []a.Money\n\tCur a.Currency\n\tRef string\n}\n"}),
 		mk("dart-enum-values", "", "package models\n\ntype E int\n\nconst (\n\tA E = 1\n\tB E = 2\n\tc E = 3\n\tD E = 2\n)\n\ntype F string\n\nconst (\n\tFa F = \"a\"\n\tFb F = \"b\"\n)\n\ntype Level int\n\nconst (\n\tLow Level = iota\n\tmedium\n\tHigh\n)\n\ntype Kind uint8\n\nconst (\n\tK0 Kind = iota\n\tK1\n\tnbKinds\n)\n\ntype S struct {\n\tE E\n\tF F\n\tL Level\n\tK Kind\n}\n"),
 		mk("dart-map-key-from-package", "", "package models\n\nimport \"example.com/org/models/sub\"\n\ntype S struct {\n\tByColor map[sub.Color]string\n\tById map[sub.ID][]int\n}\n", modFile{"sub/sub.go", "package sub\n\ntype Color int\n\nconst (\n\tRed Color = iota\n\tGreen\n)\n\ntype ID int64\n"}),
 		mk("dart-union-member-names", "", "package models\n\ntype Shape interface{ isShape() }\n\ntype Circle struct{ R int }\ntype square struct{ Side int }\ntype hTTPShape struct{ U string }\ntype N int\n\nfunc (Circle) isShape() {}\nfunc (square) isShape() {}\nfunc (hTTPShape) isShape() {}\nfunc (N) isShape() {}\n\ntype Drawing struct {\n\tMain Shape\n\tAll []Shape\n}\n"),
